@@ -10,6 +10,14 @@ def resStr : Res → String
   | .rejDuplicate => "RU"
   | .forced => "F"
 
+/-- a candidate that a member dominates AND that shares its action set with a member may be refused for either reason (the
+property allows both; which one is named depends on the order in which the implementation looks): printed as `R*` -/
+def attStr (a : List Entry) (c : Entry) (r : Res) : String :=
+  match r with
+  | .rejDominated | .rejDuplicate =>
+    if a.any (fun m => dominates m.vec c.vec) && a.any (fun m => m.act == c.act) then "R*" else resStr r
+  | _ => resStr r
+
 /-- order-sensitive 64-bit hash of the archive contents (the harness computes the same) -/
 def hashArchive (a : List Entry) : UInt64 :=
   a.foldl (fun h e =>
@@ -42,7 +50,7 @@ def step (a : List Entry) (line : String) : List Entry × String :=
   | ["reset"] => ([], "ok")
   | "att" :: rest =>
     match parseEntry rest with
-    | some c => let (r, a') := Real.attempt a c; (a', s!"{resStr r} {archStr a'}")
+    | some c => let (r, a') := Real.attempt a c; (a', s!"{attStr a c r} {archStr a'}")
     | none => (a, "bad-op")
   | "frc" :: rest =>
     match parseEntry rest with
